@@ -160,7 +160,7 @@ def cases(tier):
 
 CALLS = [
     "rec(x)", "rec(x, 2)", "rec(x, k=z)", "rec(x + z, k=x * 2)", "rec(rec2(x))", "rec(rec2(x, 3), k=rec2(z))", "rec(x, 'a')", 'rec(x, "b")', "rec(x, k='a')", "rec(x, True)", "rec(x, None)", "rec(x, k=False)",
-    "rec(x, 0.5, k=None)", "rec(-x, k=-2)", "rec(x, k = z)", "rec( x,2 )", "rec(x,k=z)", "rec(x ,  'a')", "rec(x, 'a b')", "rec(x, k=(x + z) * 2)", "rec((x + z) * 2, k=x + z * 2)",
+    "rec(x, 0.5, k=None)", "rec(-x, k=-2)", "rec(x, k = z)", "rec( x,2 )", "rec(x,k=z)", "rec(x ,  'a')", "rec(x, 'a b')", "rec(x, 'a  b')", "rec(x, '\t')", "rec(x, s='ab', k=2)", "rec(x, z=1, a=z, m='q')", "rec(x, k=`z`)", "rec(x, k=(x + z) * 2)", "rec((x + z) * 2, k=x + z * 2)",
 ]
 
 
@@ -283,11 +283,16 @@ def harness(env, case):
                         ok = False
         env.prove(ok, "recording functions receive the positional / keyword arguments Python would pass", info)
     # name: the source text normalised to single spaces, quote style preserved
-    expected = re.sub(r"\s+", " ", call)
-    expected = re.sub(r"\(\s+", "(", expected)
-    expected = re.sub(r"\s+\)", ")", expected)
-    expected = re.sub(r"\s*,\s*", ", ", expected)
-    expected = re.sub(r"(\w)\s*=\s*(?!=)", r"\1=", expected) if kind == "call" else expected
+    def norm(t):
+        t = re.sub(r"\s+", " ", t)
+        t = re.sub(r"\(\s+", "(", t)
+        t = re.sub(r"\s+\)", ")", t)
+        t = re.sub(r"\s*,\s*", ", ", t)
+        return re.sub(r"(\w)\s*=\s*(?!=)", r"\1=", t) if kind == "call" else t
+
+    # normalise outside string literals only (their content is preserved verbatim)
+    parts = re.split(r"('[^']*'|\"[^\"]*\")", call)
+    expected = "".join(p if i % 2 else norm(p) for i, p in enumerate(parts))
     if not env.prove(len(names) == 1, "one term", info):
         return
     strip = lambda t: t.replace("(", "").replace(")", "")  # noqa
